@@ -358,6 +358,14 @@ def _ser(label, fields_fn):
             return NotImplemented
         exp, case, alt = r
         case["op"] = label
+        if exp is None:
+            # the object's fields contradict each other: no byte string is the protocol layout of them
+            ctx.count(label + ":inconsistent-fields")
+            if out[0] == "ok":
+                _viol(ctx, label + "-serialises-inconsistent-fields", f"got {bytes(out[1])[:100].hex()} for {case.get('why')}", case)
+            else:
+                ctx.rejected_by_exception += 1
+            return
         if out[0] == "exc":
             _viol(ctx, label + "-serialize-raises", f"raised {out[1]!r}", case)
         elif out[1] != exp:
@@ -395,8 +403,14 @@ def f_version(m):
 def f_getheaders(m):
     if not (_u(m.version, 4) and type(m.num_hashes) is int and 0 <= m.num_hashes < 2**64 and _b(m.start_block) and len(m.start_block) == 32 and _b(m.end_block) and len(m.end_block) == 32):
         return None
+    case = {"fields": [m.version, m.num_hashes, bytes(m.start_block), bytes(m.end_block)]}
+    if m.num_hashes != 1:
+        # the message object holds exactly one locator hash: a count other than 1 announces hashes that are not there
+        # (the peer would read the stop hash as a locator and run out of data)
+        case["why"] = f"hash count {m.num_hashes} with one locator hash"
+        return None, case, []
     exp = p2p.getheaders_payload(m.version, m.num_hashes, [bytes(m.start_block)], bytes(m.end_block))
-    return exp, {"fields": [m.version, m.num_hashes, bytes(m.start_block), bytes(m.end_block)]}, []
+    return exp, case, []
 
 
 def f_getdata(m):
